@@ -86,6 +86,10 @@ def _configs():
         "(1)(2)", "1 2",
         # functions whose evaluation raises warnings / produces nan or inf (numpy error state must not leak)
         "log(0)", "log10(0)", "sqrt(0-1)", "log(0-1)+1",
+        # truncated number literals (lexer flags must not survive) and expressions that start with a sign
+        "3*1e", "2e", "-(2+3)", "+sin(0)", "- 4*2",
+        # the same call interface with an Expression OBJECT instead of a string ("E:" prefix)
+        "E:4*5", "E:1+(2", "E:2*(3+4)", "E:-(1+1)",
     ]
     # very deep nesting (a depth guard or the recursion limit must not leave anything behind): own small alphabet,
     # because one 300-deep solve costs as much as a hundred ordinary ones
@@ -196,10 +200,17 @@ def _val(o):
     return ("ok", type(v).__name__, repr(v))
 
 
+def _arg(text):
+    if text.startswith("E:"):
+        from scinumtools.solver.expression import Expression
+        return Expression(text[2:])
+    return text
+
+
 def _fresh(cname, text):
     key = (cname, text)
     if key not in _FRESH:
-        _FRESH[key] = _val(outcome(_CFG[cname][0]().solve, text))
+        _FRESH[key] = _val(outcome(lambda: _CFG[cname][0]().solve(_arg(text))))
     return _FRESH[key]
 
 
@@ -262,7 +273,7 @@ def _run_history_inner(cname, hist, sh, check_from=0):
     ref = (list(es.operators.items()), repr(es.steps), es.tokens.atom)
     bad = None
     for k, text in enumerate(hist):
-        got = _val(outcome(es.solve, text))
+        got = _val(outcome(lambda: es.solve(_arg(text))))
         if k >= check_from:
             exp = _fresh(cname, text)
             if got != exp and bad is None:
@@ -276,9 +287,38 @@ def _run_history_inner(cname, hist, sh, check_from=0):
     return es, bad
 
 
+SOAK = dict(quick=4000, thorough=40000)
+
+
+def _soak(cname, n, sh, stop_at=None):
+    """ONE long history: the whole alphabet cycled on a single instance for n calls (state that accumulates over
+    many successful calls - counters, budgets, caches - is invisible to depth-3 histories)"""
+    make, calls = _CFG[cname]
+    _restore_global_state()
+    es = make()
+    bad = None
+    for i in range(n if stop_at is None else stop_at + 1):
+        text = calls[i % len(calls)]
+        got = _val(outcome(lambda: es.solve(_arg(text))))
+        exp = _fresh(cname, text)
+        if got != exp:
+            bad = failure("soak", dict(config=cname, soak_index=i, call=text), exp, got,
+                          tags=["long-history"], behaviour="stale-state-after-many-calls")
+            break
+    if bad is None and _global_state() != _PRISTINE:
+        bad = failure("global-state", dict(config=cname, soak_index=n - 1, call="(whole soak)"),
+                      "process-wide solver state unchanged", "changed", tags=["process-wide-state", "long-history"],
+                      behaviour="global-state-changed")
+    _restore_global_state()
+    return bad
+
+
 def plan(tier, seed):
     init_worker()
     shards = []
+    for cname in _CFG:
+        if cname != "default_deep":
+            shards.append(("soak", cname, None, SOAK[tier]))
     for cname, (_, calls) in _CFG.items():
         for first in range(len(calls)):
             shards.append(("unpruned", cname, first, DEPTH[tier]))
@@ -290,6 +330,17 @@ def run_shard(desc):
     kind, cname, first, depth = desc
     sh = Shard(PROPERTY)
     calls = _CFG[cname][1]
+    if kind == "soak":
+        bad = _soak(cname, depth, sh)
+        sh.evaluations += 1
+        sh.transitions += depth
+        sh.traces += 1
+        sh.nontrivial += 1
+        sh.max_depth = depth
+        sh.add_extra("soak_calls_" + cname, depth)
+        if bad:
+            sh.fail(bad)
+        return sh
     if kind == "unpruned":
         # all histories starting with calls[first], of every length 1..depth, ordered by number of failing calls
         nfail = {c: (1 if _fresh(cname, c)[0] == "err" else 0) for c in calls}
@@ -344,6 +395,8 @@ def run_shard(desc):
 def replay(rec):
     c = rec["case"]
     sh = Shard()
+    if "soak_index" in c:
+        return _soak(c["config"], c["soak_index"] + 1, sh)
     _, bad = _run_history(c["config"], tuple(c["history"]), sh, check_from=len(c["history"]) - 1)
     return bad
 
